@@ -14,7 +14,27 @@ sys.path.insert(0, VERIF)
 from sa.report import AnalysisError, Check, run_guarded  # noqa: E402
 
 
+def self_check() -> int:
+    """setup_cmd: nothing to build; verify the tools the checks need are present."""
+    import subprocess
+
+    from sa.cbounds import find_python_include
+
+    def run():
+        inc = find_python_include()
+        p = subprocess.run(["clang", "--version"], capture_output=True, text=True)
+        if p.returncode != 0:
+            raise AnalysisError("clang not runnable")
+        print("python", sys.version.split()[0], "| clang", p.stdout.splitlines()[0], "| Python.h in", inc)
+        print("setup ok: nothing to build, checks analyse /repo sources directly")
+        return 0
+
+    return run_guarded(run)
+
+
 def main() -> int:
+    if len(sys.argv) > 1 and sys.argv[1] == "--self-check":
+        return self_check()
     ap = argparse.ArgumentParser()
     ap.add_argument("property")
     ap.add_argument("--tier", default=os.environ.get("VERIF_TIER") or "quick", choices=["quick", "thorough"])
